@@ -89,6 +89,7 @@ ProjOps(sc) ==
     IF sc.kind # "frame" THEN {} ELSE
     {<<[op |-> "proj", cols |-> <<sc.cols[i]>>], [sc EXCEPT !.cols = <<sc.cols[i]>>, !.closed = ~sc.tainted]>> : i \in 1..n}
     \cup {<<[op |-> "proj", cols |-> <<sc.cols[ij[1]], sc.cols[ij[2]]>>], [sc EXCEPT !.cols = <<sc.cols[ij[1]], sc.cols[ij[2]]>>, !.closed = ~sc.tainted]>> : ij \in pairs}
+    \cup (IF n >= 2 THEN {<<[op |-> "drop", col |-> sc.cols[i]], [sc EXCEPT !.cols = Without(sc.cols, {sc.cols[i]})]>> : i \in {1, n}} ELSE {})   \* Drop: rewritten into a projection of the complement (the column set stays open: closed unchanged)
     \cup {<<[op |-> "col", col |-> sc.cols[i]], [sc EXCEPT !.kind = "series", !.cols = <<>>, !.name = sc.cols[i], !.closed = ~sc.tainted]>> : i \in 1..n}
 
 FilterOps(sc) ==
@@ -117,7 +118,7 @@ RenameOps(sc) ==
 
 ElemOps(sc) ==
     IF sc.kind = "scalar" THEN {} ELSE
-    {<<[op |-> "elem", f |-> f], sc>> : f \in {"add1", "fillna0", "neg", "astypefloat"}}
+    {<<[op |-> "elem", f |-> f], sc>> : f \in {"add1", "fillna0", "neg", "astypefloat", "abs", "clip01", "where0"}}
     \cup (IF sc.kind = "frame" THEN {<<[op |-> "dropna"], [sc EXCEPT !.tainted = sc.tainted \/ ~sc.closed]>>} ELSE {})
 
 ReduceOps(sc) ==
@@ -193,7 +194,8 @@ RowOps(sc) ==
     \cup (IF sc.kind = "frame"
           THEN (IF sc.ord
                 THEN {<<[op |-> "dropdup", subset |-> <<sc.cols[Len(sc.cols)]>>], [sc EXCEPT !.ord = FALSE]>>,   \* keep="first" needs a defined input order
-                      <<[op |-> "nlargest", n |-> 2, col |-> sc.cols[1]], [sc EXCEPT !.ord = FALSE]>>}           \* ties are broken by input order
+                      <<[op |-> "nlargest", n |-> 2, col |-> sc.cols[1]], [sc EXCEPT !.ord = FALSE]>>,
+                      <<[op |-> "nsmallest", n |-> 2, col |-> sc.cols[Len(sc.cols)]], [sc EXCEPT !.ord = FALSE]>>}           \* ties are broken by input order
                 ELSE {})
                \cup {<<[op |-> "dropdup", subset |-> <<>>], [sc EXCEPT !.ord = FALSE, !.tainted = sc.tainted \/ ~sc.closed]>>}
           ELSE {<<[op |-> "unique"], [sc EXCEPT !.ord = FALSE, !.idx = FALSE]>>,
@@ -220,7 +222,7 @@ Ops(sc) ==
 
 (* the rows still carry the sorted integer index of the source table (what merge_asof on the index needs) *)
 RECURSIVE SourceIndexed(_)
-SourceIndexed(x) == x.op = "src" \/ (x.op \in {"filter", "elem", "proj", "assign", "rename", "dropna", "head", "addprefix", "addsuffix"} /\ SourceIndexed(x.c[1]))
+SourceIndexed(x) == x.op = "src" \/ (x.op \in {"filter", "elem", "proj", "drop", "assign", "rename", "dropna", "head", "addprefix", "addsuffix"} /\ SourceIndexed(x.c[1]))
 
 VARIABLES q, sc, depth
 vars == <<q, sc, depth>>
